@@ -34,6 +34,15 @@ pub enum Step {
     ReadBad,
     /// send(MSG_NOSIGNAL) to the socket whose peer is gone: the completion is -EPIPE
     SendClosed,
+    /// calls of the plain (no timeout) io_uring family:
+    /// fsync on a socket: -EINVAL
+    FsyncSock,
+    /// shutdown on a descriptor number that is not open: -EBADF
+    ShutdownBad,
+    /// mkdirat of a directory that exists: -EEXIST
+    MkdirExists,
+    /// socket(AF_UNIX, SOCK_STREAM): a new descriptor
+    Socket,
 }
 
 #[derive(Clone, Copy, Debug, PartialEq, Eq, Hash)]
@@ -50,6 +59,10 @@ impl Step {
             Step::Write(s) => format!("write({})", SL[s]),
             Step::ReadBad => "read(unopened descriptor)".into(),
             Step::SendClosed => "send(P,MSG_NOSIGNAL)".into(),
+            Step::FsyncSock => "fsync(A)".into(),
+            Step::ShutdownBad => "shutdown(unopened descriptor)".into(),
+            Step::MkdirExists => "mkdirat(/tmp)".into(),
+            Step::Socket => "socket()".into(),
         }
     }
     fn from_s(s: &str) -> Option<Step> {
@@ -57,6 +70,10 @@ impl Step {
         match s {
             "read(unopened descriptor)" => return Some(Step::ReadBad),
             "send(P,MSG_NOSIGNAL)" => return Some(Step::SendClosed),
+            "fsync(A)" => return Some(Step::FsyncSock),
+            "shutdown(unopened descriptor)" => return Some(Step::ShutdownBad),
+            "mkdirat(/tmp)" => return Some(Step::MkdirExists),
+            "socket()" => return Some(Step::Socket),
             _ => {}
         }
         if let Some(r) = s.strip_prefix("read(") {
@@ -208,6 +225,16 @@ pub fn run_case(c: &Case) -> (Vec<Viol>, BTreeMap<String, u64>) {
                         Step::SendClosed => {
                             buf[..4].copy_from_slice(&out_bytes(j, i));
                             sc::send(None, fds[3], buf.as_ptr().cast(), 4, libc::MSG_NOSIGNAL)
+                        }
+                        Step::FsyncSock => sc::fsync(None, fds[0]) as isize,
+                        Step::ShutdownBad => sc::shutdown(None, bad_fd, libc::SHUT_RDWR) as isize,
+                        Step::MkdirExists => sc::mkdirat(None, libc::AT_FDCWD, c"/tmp".as_ptr(), 0o755) as isize,
+                        Step::Socket => {
+                            let fd = sc::socket(None, libc::AF_UNIX, libc::SOCK_STREAM, 0);
+                            if fd >= 0 {
+                                unsafe { libc::close(fd) };
+                            }
+                            isize::from(fd >= 0) - isize::from(fd < 0)
                         }
                     };
                     let errno = std::io::Error::last_os_error().raw_os_error().unwrap_or(0);
@@ -401,6 +428,23 @@ pub fn run_case(c: &Case) -> (Vec<Viol>, BTreeMap<String, u64>) {
                     w("error_completions_checked", 1);
                 }
             }
+            Step::FsyncSock | Step::ShutdownBad | Step::MkdirExists => {
+                let (want, name) = match call.step {
+                    Step::FsyncSock => (libc::EINVAL, "EINVAL"),
+                    Step::ShutdownBad => (libc::EBADF, "EBADF"),
+                    _ => (libc::EEXIST, "EEXIST"),
+                };
+                if call.ret != -1 || call.errno != want {
+                    bad("negative-completion-is-minus-one-with-errno", format!("{name}:plain-family:{ctx}"), format!("returned {} with errno {}, its own completion is -{name}", call.ret, call.errno));
+                } else {
+                    w("error_completions_checked", 1);
+                }
+            }
+            Step::Socket => {
+                if call.ret != 1 {
+                    bad("own-result", format!("socket:{ctx}"), format!("did not return a descriptor (errno {})", call.errno));
+                }
+            }
         }
     }
     // every fed byte was delivered to a call or is still in the socket, in order
@@ -475,10 +519,12 @@ pub fn bounds(tier: &str) -> (usize, usize, usize) {
 
 pub fn cases(tier: &str) -> Vec<Case> {
     let (l0, l1, e) = bounds(tier);
-    let steps = [Step::Read(0), Step::Read(1), Step::Read(2), Step::Read(3), Step::Write(0), Step::Write(1), Step::ReadBad, Step::SendClosed];
+    let steps = [Step::Read(0), Step::Read(1), Step::Read(2), Step::Read(3), Step::Write(0), Step::Write(1), Step::ReadBad, Step::SendClosed, Step::FsyncSock, Step::ShutdownBad, Step::MkdirExists, Step::Socket];
+    // the second coroutine: something to be in flight next to the first one's calls
+    let steps1 = [Step::Read(1), Step::Write(1), Step::ReadBad, Step::FsyncSock, Step::Read(2)];
     let p0 = seqs(&steps, 1, l0);
     let mut p1: Vec<Vec<Step>> = vec![vec![]];
-    p1.extend(seqs(&steps, 1, l1));
+    p1.extend(seqs(&steps1, 1, l1));
     let mut v = Vec::new();
     for a in &p0 {
         for b in &p1 {
@@ -492,6 +538,8 @@ pub fn cases(tier: &str) -> Vec<Case> {
             if progs.iter().flatten().any(|x| *x == Step::Read(2)) {
                 alpha.push(Ev::Idle);
             }
+            // two coroutines: one driver event less
+            let e = if progs.len() > 1 { e.saturating_sub(1) } else { e };
             for evs in seqs(&alpha, 0, e) {
                 v.push(Case { progs: progs.clone(), evs });
             }
@@ -513,8 +561,9 @@ pub fn run(tier: &str, rep: &mut Report) {
     let cs = cases(tier);
     let (l0, l1, e) = bounds(tier);
     rep.bounds = json!({"descriptors": {"A,B": "stream sockets", "T": "stream socket with SO_RCVTIMEO = 1 s", "P": "stream socket whose peer is closed"},
-        "program_steps": ["read(A|B|T|P) of 4 bytes", "write(A|B) of 4 bytes", "read(unopened descriptor) -> -EBADF", "send(P, MSG_NOSIGNAL) -> -EPIPE"],
-        "steps_of_coroutine_0": l0, "steps_of_coroutine_1": l1, "driver_events": ["feed(slot): 4 more bytes", "let-2s-pass"], "driver_sequence_length": format!("0..={e}"), "cases": cs.len(),
+        "program_steps": ["read(A|B|T|P) of 4 bytes", "write(A|B) of 4 bytes", "read(unopened descriptor) -> -EBADF", "send(P, MSG_NOSIGNAL) -> -EPIPE", "fsync(A) -> -EINVAL", "shutdown(unopened descriptor) -> -EBADF", "mkdirat(/tmp) -> -EEXIST", "socket() -> a descriptor"],
+        "second_coroutine_steps": ["read(B)", "write(B)", "read(unopened descriptor)", "fsync(A)", "read(T)"],
+        "steps_of_coroutine_0": l0, "steps_of_coroutine_1": l1, "driver_events": ["feed(slot): 4 more bytes", "let-2s-pass"], "driver_sequence_length": format!("0..={e} (one coroutine), 0..={} (two)", e.saturating_sub(1)), "cases": cs.len(),
         "note": "completions arrive from the kernel's SQ-poll thread: after every driver event the loop is turned until every call whose completion is due has returned (cap 1.5 s of real time per event)"});
     rep.require(&["reads_that_got_their_own_bytes", "error_completions_checked", "cases_with_two_coroutines"]);
     for c in cs.iter().step_by((cs.len() / 4).max(1)).take(4) {
